@@ -360,7 +360,8 @@ func (runInfo *runInfoStruct) invokeMemberExpr(expr *ast.MemberExpr) {
 		runInfo.rv = runInfo.rv.Elem()
 	}
 
-	if env, ok := runInfo.rv.Interface().(*env.Env); ok {
+	// (a nil scope pointer - the zero value of a type made from a module - is no module to look in)
+	if env, ok := runInfo.rv.Interface().(*env.Env); ok && env != nil {
 		runInfo.rv, runInfo.err = env.GetValue(expr.Name)
 		if runInfo.err != nil {
 			runInfo.err = newError(expr, runInfo.err)
